@@ -20,6 +20,7 @@ import (
 	"go/ast"
 	"go/constant"
 	"go/token"
+	"go/types"
 	"math"
 	"strings"
 )
@@ -30,6 +31,7 @@ func init() {
 			return
 		}
 		g.pf("\n(* ---- packet-layer tables, tools/repo2coq/gen_rtmppkt.go ---- *)\n")
+		g.rtmpCommandBytes()
 		decls := map[string]*ast.FuncDecl{}
 		for _, fd := range g.funcDecls() {
 			decls[recvName(fd)+"."+fd.Name.Name] = fd
@@ -439,4 +441,24 @@ func (g *gen) rtmpCtor(name string, fd *ast.FuncDecl) {
 		return
 	}
 	g.pf("Definition rtmp_tbl_ctor_%s : (string * Z * string * string) := (%s, %s, %s, %s).\n", name, coqStr(cmd), tid, coqStr(obj), coqStr(stype))
+}
+
+// the command-name constants as byte lists (the extracted model must not depend on Coq's string)
+func (g *gen) rtmpCommandBytes() {
+	scope := g.p.Types.Scope()
+	for _, name := range scope.Names() {
+		if !strings.HasPrefix(name, "command") {
+			continue
+		}
+		c, ok := scope.Lookup(name).(*types.Const)
+		if !ok || c.Val().Kind() != constant.String {
+			continue
+		}
+		v := constant.StringVal(c.Val())
+		var items []string
+		for i := 0; i < len(v); i++ {
+			items = append(items, fmt.Sprintf("%d%%N", v[i]))
+		}
+		g.pf("Definition rtmp_%s_bytes : list N := [%s].\n", name, strings.Join(items, "; "))
+	}
 }
